@@ -36,6 +36,12 @@ func ackPolicyEdges(fn *ssa.Function, base eng.VM, name string, eq bool) []eng.E
 }
 
 func runC04(c *eng.Ctx) {
+	c.Rule("R04.1", "K2")
+	ruleAllPolicyAlwaysGoesThroughTheCommitQueue(c)
+	c.Rule("R17.6", "K4")
+	ruleSealedValueIsTheCallers(c)
+	c.Rule("R04.2", "K5")
+	ruleMinISRIsTheConfiguredOne(c)
 	c.Rule("R04.8", "K1")
 	ruleAckBelongsToThePublishedStream(c)
 	c.Rule("R04.7", "K2")
